@@ -27,6 +27,7 @@ HINT = {("sqlite", "exists", "value"): "S1-like: Exists answers wrongly (origina
         ("crash", None, "value"): "a background goroutine of the code under test killed the process (original defect S3: List used the connection after returning it to the pool)",
         ("cosmos", "update", "value"): "S7-like: the search item written by UpdatePlan differs from the plan (original defect S7: swarm dropped, the plan vanishes from every query)",
         ("cosmos", "create", "value"): "the search item written by Create differs from the plan",
+        ("cosmos", "exists-fault", "value"): "Exists answered without an error although the point read failed with something other than 404",
         ("cosmos", "list-text", "value"): "the query cosmosdb List sends, evaluated over the search items actually written, is not the first <limit> plans newest first",
         ("cosmos", "query-text", "value"): "the query cosmosdb emits, evaluated over the search items actually written, does not select the matching plans"}
 
@@ -34,7 +35,9 @@ WHAT = {1: "result (nil / error) of a mutation", 2: "cosmosdb search item writte
         3: "Exists", 4: "Search", 5: "List", 6: "text/parameters of cosmosdb buildSearchQuery (AST differs from the model's)",
         7: "cosmosdb buildSearchQuery evaluated over the search items actually written",
         8: "text/parameters cosmosdb List sends (AST differs from the model's)",
-        9: "the query cosmosdb List sends, evaluated over the search items actually written"}
+        9: "the query cosmosdb List sends, evaluated over the search items actually written",
+        10: "cosmosdb Exists while point reads fail: 'false' (or 'true') without the service having said 404 (or returned the item)",
+        11: "cosmosdb Search/List while queries fail: the stream must deliver one error and be closed"}
 
 
 def triples(r):
@@ -116,7 +119,8 @@ def run(ctx):
 
     steps = sum(c["dist"]["steps"] for c in live)
     obs_steps = sum(v for c in live for k, v in (c["dist"].get("hist") or {}).items()
-                    if k in ("step:exists", "step:search", "step:list", "step:query-text", "step:list-text"))
+                    if k in ("step:exists", "step:search", "step:list", "step:query-text", "step:list-text",
+                             "step:exists-fault", "step:search-fault", "step:list-fault"))
     ctx.evidence(dict(
         evaluations=obs_steps,
         distinct_nontrivial=fw.distinct_nontrivial(live),
@@ -124,7 +128,7 @@ def run(ctx):
              "on a fresh vault with 0-12 plans (thorough: up to 30), interleaved with Exists probes, a partial battery in the middle and a full "
              "battery at the end (Exists of every id incl. deleted / never created / nil; all 7 filter-kind combinations single- and multi-valued "
              "incl. unknown ids, absent groups, repeated values, status 150; Running; all statuses; all ids; the empty filter; List limits "
-             "-1,0,1,n-1,n,n+1; one ByIDs list of 501 / 600 / 1100 entries per history, never-created ids with the live ids planted around the multiples of 500 oldest first, alone or with group / status filters). evaluations = observations judged (Exists + Search + List + parsed cosmos Search and List query texts); distinct = distinct "
+             "-1,0,1,n-1,n,n+1; cosmosdb: Exists of a stored and an unknown id while every point read is answered 404/409/410/412/429/500/503 or fails without a status, Search and List while every query fails; names and descriptions incl. numeric-looking strings; one ByIDs list of 501 / 600 / 1100 entries per history, never-created ids with the live ids planted around the multiples of 500 oldest first, alone or with group / status filters). evaluations = observations judged (Exists + Search + List + parsed cosmos Search and List query texts); distinct = distinct "
              "(history, observations) by hash; non-trivial = at least 2 live plans at the end and more than 10 steps",
         samples=[dict(id=c["id"], backend=c["kind"], dist={k: v for k, v in c["dist"].items() if k != "hist"},
                       first_steps=c["observed"][:6], last_steps=c["observed"][-3:]) for c in live[3:6]],
@@ -143,6 +147,8 @@ def run(ctx):
             list_skipped=merge_hist(live, "list:"),
             cosmos_list_text_limit=merge_hist(live, "list-text-limit:"),
             exists=merge_hist(live, "exists:"),
+            cosmos_exists_under_read_fault=merge_hist(live, "exists-fault:"),
+            cosmos_stream_under_query_fault=merge_hist(live, "stream-fault:"),
             step_kinds=merge_hist(live, "step:"),
             final_statuses=fw.histogram(s for c in live for s, k in c["dist"]["statuses"].items() for _ in range(k)),
         ),
